@@ -209,7 +209,10 @@ func (g *gen) arrayDecl() string {
 	default:
 		tgt = untyped(kInt)
 	}
+	fault := g.fault
+	g.fault = false // the length must stay small: no reject-intended leaf here
 	n := g.gen(g.intn(3, "lenDepth"), tgt)
+	g.fault = fault
 	tv, ok := n.eval(g.iota)
 	var ln int64 = -1
 	if ok {
